@@ -24,18 +24,12 @@ type mapLoop struct {
 // reviewed exemptions: loops whose order-sensitive effects were judged unobservable. Keyed by construct; the effect set is
 // part of the entry so that a new kind of effect in the same loop is reported again.
 var c16Exempt = map[string]struct{ effects, reason string }{
-	"compiler.(*compiler).exitScope|range scp.variables":                      {"ir-emission", "emits one free per variable; frees of distinct allocations commute (no observable order)"},
-	"compiler.(*compiler).exitFuncScope|range scp.variables":                  {"ir-emission", "emits one free per variable; frees of distinct allocations commute"},
-	"compiler.(*compiler).VisitReturnStmt|range scp.variables":                {"ir-emission", "emits one free per variable; frees of distinct allocations commute"},
 	"compiler.(*compiler).addExternalDependencies|range ExternalDependencies": {"diagnostic", "keyed set insert; the handler is reached only when filepath.Abs fails (environment failure, not a function of the sources)"},
 	"compiler.compileWithImportsRec|range ExternalDependencies":               {"diagnostic", "keyed set insert; the handler is reached only when filepath.Abs fails (environment failure, not a function of the sources)"},
 }
 
 // reviewed consumers of map-ordered slices
-var c16EscapeExempt = map[string]string{
-	"annotators.(*ConstFuncParamAnnotator).VisitAssignStmt|currentParams": "passed to doesReferenceVarMutable, which selects by pointer identity (at most one match) or returns the whole set; the result only drives keyed writes currentParams[v] = false",
-	"annotators.(*ConstFuncParamAnnotator).VisitFuncCall|currentParams":   "same as VisitAssignStmt",
-}
+var c16EscapeExempt = map[string]string{}
 
 func isMapType(t types.Type) bool {
 	if t == nil {
@@ -249,6 +243,174 @@ func checkC16(c *Check) {
 		return v
 	}
 
+	// sliceArgOK: a map-ordered slice is handed to parameter #idx of callee. ok = no use of the parameter lets the order
+	// through: membership tests, len, forwarding to a parameter with the same summary, a range loop with commutative
+	// effects, a range loop that selects by identity (`if e == x { return ... }`: at most one match when the elements
+	// are unique, as map keys are), or returning the slice itself. returned = the function may return the slice (then
+	// the call's own consumer is judged by the caller of sliceArgOK).
+	var sliceArgOK func(callee *FuncInfo, call *ast.CallExpr, arg ast.Expr, unique bool, depth int) (ok, returned bool)
+	consumedOK := func(fi *FuncInfo, call *ast.CallExpr) (ok, returned bool) {
+		switch p := parentOf(fi.Decl.Body, call).(type) {
+		case *ast.RangeStmt:
+			if p.X == ast.Expr(call) {
+				v := classify(mapLoop{fi: fi, stmt: p})
+				return len(v.kinds) == 0 && len(v.appends) == 0, false
+			}
+		case *ast.ReturnStmt:
+			return true, true
+		case *ast.ExprStmt:
+			return true, false
+		}
+		return false, false
+	}
+	sliceArgOK = func(callee *FuncInfo, call *ast.CallExpr, arg ast.Expr, unique bool, depth int) (bool, bool) {
+		if callee == nil || callee.Decl.Body == nil || depth > 3 {
+			return false, false
+		}
+		idx := -1
+		for i, a := range call.Args {
+			if a == arg {
+				idx = i
+			}
+		}
+		info := callee.Pkg.TypesInfo
+		var param types.Object
+		k := 0
+		for _, f := range callee.Decl.Type.Params.List {
+			for _, n := range f.Names {
+				if k == idx {
+					param = info.Defs[n]
+				}
+				k++
+			}
+		}
+		if idx < 0 || param == nil {
+			return false, false
+		}
+		ok, returned := true, false
+		ast.Inspect(callee.Decl.Body, func(n ast.Node) bool {
+			id, isId := n.(*ast.Ident)
+			if !isId || info.Uses[id] != param || !ok {
+				return true
+			}
+			switch p := parentOf(callee.Decl.Body, id).(type) {
+			case *ast.CallExpr:
+				if fid, isB := ast.Unparen(p.Fun).(*ast.Ident); isB {
+					if _, isBuiltin := info.Uses[fid].(*types.Builtin); isBuiltin && (fid.Name == "len" || fid.Name == "cap") {
+						return true
+					}
+				}
+				fn := Callee(info, p)
+				if fn == nil {
+					ok = false
+					return true
+				}
+				if fn.Pkg() != nil && fn.Pkg().Path() == "slices" && (fn.Name() == "Contains" || fn.Name() == "Index") {
+					return true
+				}
+				if fn == callee.Obj {
+					// recursion: the result is whatever this function returns; fine when it is returned or dropped
+					switch parentOf(callee.Decl.Body, p).(type) {
+					case *ast.ReturnStmt, *ast.ExprStmt:
+						return true
+					}
+					ok = false
+					return true
+				}
+				ok2, ret2 := sliceArgOK(L.Funcs[fn], p, id, unique, depth+1)
+				if !ok2 {
+					ok = false
+					return true
+				}
+				if ret2 {
+					cok, cret := consumedOK(callee, p)
+					if !cok {
+						ok = false
+					}
+					returned = returned || cret
+				}
+			case *ast.RangeStmt:
+				if p.X != ast.Expr(id) {
+					ok = false
+					return true
+				}
+				v := classify(mapLoop{fi: callee, stmt: p})
+				if len(v.kinds) == 0 && len(v.appends) == 0 {
+					return true
+				}
+				// selection by identity
+				val, _ := p.Value.(*ast.Ident)
+				sel := unique && val != nil && len(v.appends) == 0
+				for _, st := range p.Body.List {
+					is, isIf := st.(*ast.IfStmt)
+					if !isIf || is.Init != nil || is.Else != nil {
+						sel = false
+						break
+					}
+					be, isBin := ast.Unparen(is.Cond).(*ast.BinaryExpr)
+					if !isBin || be.Op != token.EQL {
+						sel = false
+						break
+					}
+					x, xok := ast.Unparen(be.X).(*ast.Ident)
+					y, yok := ast.Unparen(be.Y).(*ast.Ident)
+					isVal := func(i *ast.Ident, present bool) bool { return present && val != nil && info.Uses[i] == info.Defs[val] }
+					other := be.Y
+					if !isVal(x, xok) {
+						other = be.X
+						if !isVal(y, yok) {
+							sel = false
+							break
+						}
+					}
+					// the other side must not depend on the loop
+					dep := false
+					ast.Inspect(other, func(m ast.Node) bool {
+						if oid, ok := m.(*ast.Ident); ok {
+							if o := info.Uses[oid]; o != nil && p.Pos() <= o.Pos() && o.Pos() < p.End() {
+								dep = true
+							}
+						}
+						return true
+					})
+					if dep || len(is.Body.List) != 1 {
+						sel = false
+						break
+					}
+					if _, isRet := is.Body.List[0].(*ast.ReturnStmt); !isRet {
+						sel = false
+						break
+					}
+				}
+				if !sel {
+					ok = false
+				}
+			case *ast.ReturnStmt:
+				returned = true
+			default:
+				ok = false
+			}
+			return true
+		})
+		return ok, returned
+	}
+	// argOK: the whole judgement for `f(..., s, ...)` inside fi where s is map-ordered
+	argOK := func(fi *FuncInfo, call *ast.CallExpr, arg ast.Expr, unique bool) bool {
+		fn := Callee(fi.Pkg.TypesInfo, call)
+		if fn == nil {
+			return false
+		}
+		ok, ret := sliceArgOK(L.Funcs[fn], call, arg, unique, 0)
+		if !ok {
+			return false
+		}
+		if ret {
+			cok, cret := consumedOK(fi, call)
+			return cok && !cret
+		}
+		return true
+	}
+
 	// sortedAfter: is the outer slice obj sorted by a recognised total order right after the loop, before other uses?
 	sortedAfter := func(ml mapLoop, obj types.Object) (found bool, total bool, why string, pos token.Pos) {
 		info := ml.fi.Pkg.TypesInfo
@@ -303,12 +465,12 @@ func checkC16(c *Check) {
 				return true, true, "natural order of the elements", call.Pos()
 			case "sort.Slice", "sort.SliceStable", "slices.SortFunc", "slices.SortStableFunc":
 				if len(call.Args) == 2 {
-					if fl, ok := call.Args[1].(*ast.FuncLit); ok {
-						ok, why := totalComparator(L, info, fl)
+					if body, binfo := comparatorBody(L, info, ml.fi.Decl.Body, call.Args[1]); body != nil {
+						ok, why := totalComparator(L, binfo, body)
 						return true, ok, why, call.Pos()
 					}
 				}
-				return true, false, "comparator is not a function literal", call.Pos()
+				return true, false, "the comparator is not a function literal nor a function of the repository", call.Pos()
 			}
 			return false, false, "", token.NoPos
 		}
@@ -375,6 +537,18 @@ func checkC16(c *Check) {
 			classes = append(classes, cl)
 		}
 		classes = uniq(classes)
+		// a loop whose only order-sensitive effect is emitting the free of the iterated variable: frees of distinct
+		// allocations commute (no observable order), wherever the loop lives
+		freesOnly := true
+		for _, k := range kinds {
+			if !(strings.HasPrefix(k, "ir-emission via ") && strings.HasSuffix(k, "/src/compiler.compiler).freeNonPrimitive") && !strings.Contains(k, ", ")) {
+				freesOnly = false
+			}
+		}
+		if freesOnly {
+			r.OK(key, ml.stmt.Pos(), "emits one free per iterated variable and nothing else; frees of distinct allocations commute (no observable order)")
+			return
+		}
 		// exemption lookup by function + map field (last selector component)
 		for ek, ex := range c16Exempt {
 			parts := strings.SplitN(ek, "|range ", 2)
@@ -414,6 +588,7 @@ func checkC16(c *Check) {
 			if src == "" {
 				return true
 			}
+			uniqueSrc := strings.HasSuffix(src, "maps.Keys") // the keys of a map are pairwise different
 			// how is the result consumed?
 			parent := parentOf(fi.Decl.Body, call)
 			switch p := parent.(type) {
@@ -447,6 +622,9 @@ func checkC16(c *Check) {
 											if fi2 := L.Funcs[fn]; fi2 != nil && onlyMembership(L, fi2, u, a) {
 												continue
 											}
+											if argOK(fi, u, a, uniqueSrc) {
+												continue
+											}
 										}
 										escaped = true
 									}
@@ -473,10 +651,10 @@ func checkC16(c *Check) {
 						rs.OK(q+"|slices.Sorted("+src+")", pc.Pos(), "natural order of the elements")
 						return true
 					case "SortedFunc", "SortedStableFunc":
-						okc, why := false, "comparator is not a function literal"
+						okc, why := false, "the comparator is not a function literal nor a function of the repository"
 						if len(pc.Args) == 2 {
-							if fl, isLit := pc.Args[1].(*ast.FuncLit); isLit {
-								okc, why = totalComparator(L, info, fl)
+							if body, binfo := comparatorBody(L, info, fi.Decl.Body, pc.Args[1]); body != nil {
+								okc, why = totalComparator(L, binfo, body)
 							}
 						}
 						rs.Decide(okc, q+"|"+pf.Name()+"("+src+")", pc.Pos(), "sorted by "+why, "values collected in map order are sorted by a comparator that is not a recognised total order ("+why+"): the map's iteration order survives the sort")
@@ -486,6 +664,14 @@ func checkC16(c *Check) {
 			}
 			// passed directly / returned
 			key := q + "|" + src + "|passed on"
+			if pc, ok := parent.(*ast.CallExpr); ok {
+				if fn := Callee(info, pc); fn != nil {
+					if fi2 := L.Funcs[fn]; fi2 != nil && (onlyMembership(L, fi2, pc, call) || argOK(fi, pc, call, uniqueSrc)) {
+						r.OK(key, call.Pos(), "handed to "+fn.Name()+", which uses it for membership tests, identity selection or commutative iteration only")
+						return true
+					}
+				}
+			}
 			if ex, ok := c16DirectExempt[q+"|"+shortCallee(src)]; ok {
 				r.Ex(key, call.Pos(), ex)
 			} else {
@@ -556,6 +742,10 @@ func parentOf(root ast.Node, child ast.Node) ast.Node {
 // onlyMembership: callee uses the slice parameter only as argument of slices.Contains / in range loops with commutative bodies.
 // Conservative recogniser: parameter is used only in calls to slices.Contains or passed on to itself recursively.
 func onlyMembership(L *Loaded, callee *FuncInfo, call *ast.CallExpr, arg ast.Expr) bool {
+	return onlyMembershipD(L, callee, call, arg, 0)
+}
+
+func onlyMembershipD(L *Loaded, callee *FuncInfo, call *ast.CallExpr, arg ast.Expr, depth int) bool {
 	idx := -1
 	for i, a := range call.Args {
 		if a == arg {
@@ -594,6 +784,10 @@ func onlyMembership(L *Loaded, callee *FuncInfo, call *ast.CallExpr, arg ast.Exp
 				if fn == callee.Obj {
 					return true
 				}
+				// forwarded unchanged to another function of the repository that itself only tests membership
+				if fi2 := L.Funcs[fn]; fi2 != nil && depth < 3 && onlyMembershipD(L, fi2, c, id, depth+1) {
+					return true
+				}
 			}
 		}
 		ok = false
@@ -605,7 +799,41 @@ func onlyMembership(L *Loaded, callee *FuncInfo, call *ast.CallExpr, arg ast.Exp
 // totalComparator recognises comparators that are total orders on source positions:
 //   - return X.IsBefore(Y) / X.IsBehind(Y) on token.Position values
 //   - lexicographic comparison on (Line, Column): L1 < L2 || (L1 == L2 && C1 < C2), or the equivalent if-chain
-func totalComparator(L *Loaded, info *types.Info, fl *ast.FuncLit) (bool, string) {
+//
+// comparatorBody resolves a comparator argument to the body that is executed: a function literal, a once-defined local
+// holding one, or a function of the repository named directly (the literal, extracted).
+func comparatorBody(L *Loaded, info *types.Info, scope ast.Node, e ast.Expr) (*ast.BlockStmt, *types.Info) {
+	e = ast.Unparen(e)
+	if fl, ok := e.(*ast.FuncLit); ok {
+		return fl.Body, info
+	}
+	var id *ast.Ident
+	switch x := e.(type) {
+	case *ast.Ident:
+		id = x
+	case *ast.SelectorExpr:
+		id = x.Sel
+	}
+	if id == nil {
+		return nil, nil
+	}
+	switch o := info.Uses[id].(type) {
+	case *types.Func:
+		if fi := L.Funcs[o.Origin()]; fi != nil && fi.Decl.Body != nil {
+			return fi.Decl.Body, fi.Pkg.TypesInfo
+		}
+	case *types.Var:
+		if d := singleDef(info, scope, o); d != nil {
+			if fl, ok := ast.Unparen(d).(*ast.FuncLit); ok {
+				return fl.Body, info
+			}
+		}
+	}
+	return nil, nil
+}
+
+func totalComparator(L *Loaded, info *types.Info, flBody *ast.BlockStmt) (bool, string) {
+	fl := struct{ Body *ast.BlockStmt }{flBody}
 	// collect field names compared with < or >, == and the boolean skeleton
 	var rets []*ast.ReturnStmt
 	ast.Inspect(fl.Body, func(n ast.Node) bool {
